@@ -51,6 +51,7 @@ type rmode struct {
 	hasAccept bool
 	accept    string
 	xhr       bool
+	absForm   bool // absolute-form request target (RFC 7230 5.3.2): req.Host comes from the target
 	hdr       [][2]string
 }
 
@@ -116,7 +117,11 @@ func (wr *wire) roundTrip(req *http.Request) *httptest.ResponseRecorder {
 		body, _ = io.ReadAll(req.Body)
 	}
 	var buf bytes.Buffer
-	fmt.Fprintf(&buf, "%s %s HTTP/1.1\r\nHost: %s\r\nConnection: close\r\n", req.Method, req.RequestURI, req.Host)
+	target, hostHdr := req.RequestURI, req.Host
+	if curMode.absForm && strings.HasPrefix(target, "/") {
+		target, hostHdr = "http://"+req.Host+target, "ignored.example.test"
+	}
+	fmt.Fprintf(&buf, "%s %s HTTP/1.1\r\nHost: %s\r\nConnection: close\r\n", req.Method, target, hostHdr)
 	keys := make([]string, 0, len(req.Header))
 	for k := range req.Header {
 		keys = append(keys, k)
@@ -215,6 +220,7 @@ type vmode struct {
 	hasAccept bool
 	accept    string
 	xhr       bool
+	absForm   bool
 }
 
 var accepts = []string{"*/*", "text/html", "text/plain", "application/json", "application/xml", "image/webp",
@@ -229,8 +235,19 @@ func allVariants() []vmode {
 		for _, a := range accepts {
 			l = append(l, vmode{hasAccept: true, accept: a, xhr: x})
 		}
+		l = append(l, vmode{absForm: true, xhr: x})
 	}
 	return l
+}
+
+func (v vmode) rmode(hdr [][2]string) rmode {
+	return rmode{hasAccept: v.hasAccept, accept: v.accept, xhr: v.xhr, absForm: v.absForm, hdr: hdr}
+}
+
+// rawRequest: a request exactly as the driver wants it on the wire (the target may be in
+// absolute form and carry a host net/http's Host-header validation would refuse)
+func rawRequest(method, hostHeader, target string) *http.Request {
+	return &http.Request{Method: method, Host: hostHeader, RequestURI: target, Header: http.Header{}}
 }
 
 func someVariants(k, n int) []vmode {
@@ -249,6 +266,9 @@ func (v vmode) String() string {
 	}
 	if v.xhr {
 		s += " + X-Requested-With"
+	}
+	if v.absForm {
+		s += " + absolute-form request target"
 	}
 	return s
 }
